@@ -76,6 +76,18 @@ def all_docs(max_nodes: int):
     docs = [{}]
     for n in range(1, max_nodes + 1):
         docs += docs_with_nodes(n)
+    # deeply nested chains (levels 4 and 5) with and without a sibling at every level
+    def chain(depth, leaf, sibling):
+        d = leaf
+        for lvl in range(depth):
+            d = {"a": d, **({"b": lvl} if sibling else {})}
+        return d
+    for depth in (4, 5):
+        for leaf in (1, {"c": 2}, [1], None):
+            for sib in (False, True):
+                docs.append(chain(depth, leaf, sib))
+    docs.append({"a": {"a": {"a": {"b": 7}}}})
+    docs.append({"a": {"a": {"a": {"a": {"c": 9}, "b": 0}}}})
     # de-duplicate
     seen, out = set(), []
     for d in docs:
@@ -151,7 +163,7 @@ OVERLAYS = {
     "O_lower_key": {"de": {"bban_length": 1, "iban_length": 5, "bban_spec": "1!n"}, "Xx": {"bban_length": 2, "iban_length": 6, "bban_spec": "2!a", "in_sepa_zone": True}},
 }
 # "zz-site.json" < "zz.json" in file-name order ('-' < '.'), but "zz" < "zz-site" by stem
-OVERLAY_NAMES = ["00_first.json", "Generated.json", "h_between.json", "zz-site.json", "zz.json"]
+OVERLAY_NAMES = ["00_first.json", "Generated.json", "h_between.json", "zz-site.json", "zz.json", ".site.json"]
 
 
 def bundled_docs():
